@@ -61,8 +61,8 @@ def parse_ok(res):
         return None
 
 
-def incr_post_ok(caps0, dems, caps1, incr):
-    """the statement about increaseCapacity, evaluated on the C++ capacities"""
+def incr_exact(caps0, dems, caps1, incr):
+    """what increaseCapacity does exactly (theorem c13_increase_capacity_post), evaluated on the C++ capacities"""
     if not incr:
         return caps1 == caps0
     missing = sum(dems) - sum(caps0)
@@ -114,6 +114,9 @@ def evaluate(ctx, lines, harness, driver, st):
                 st["mism"].append((l, r[:300], m[:300], "outcome kind differs on a problem check() should refuse"))
             continue
         # ---------------- the statement of C13 on the C++ output
+        if rk == "SKIPPED":
+            st["skipped"] += 1
+            continue
         if o is None:
             st["ofail"].append((l, r[:300], "no plan returned for a problem with positive data and demand <= capacity: " + r[:80]))
             continue
@@ -125,8 +128,8 @@ def evaluate(ctx, lines, harness, driver, st):
         feas, cert, amax, ckcost, masg = mm.group(1) == "1", mm.group(2) == "1", mm.group(3) == "1", int(mm.group(4)), mm.group(5).split()
         orc = o["oracle"]
         why = None
-        if not incr_post_ok(caps, dems, o["caps"], incr):
-            why = "increaseCapacity postcondition violated: capacities %s -> %s for total demand %d" % (caps, o["caps"], sum(dems))
+        if sum(o["caps"]) < sum(dems) or len(o["caps"]) != nsnk or any(c1 < c0 for c0, c1 in zip(caps, o["caps"])):
+            why = "capacity normalisation failed: capacities %s -> %s for total demand %d" % (caps, o["caps"], sum(dems))
         elif not feas:
             why = "plan infeasible (proved checker feasibleb rejects: a source not fully allocated, a sink above capacity or a negative allocation)"
         elif ckcost != o["cost"]:
@@ -135,10 +138,14 @@ def evaluate(ctx, lines, harness, driver, st):
             why = "plan not of minimum cost: cost %d, optimum %s (independent min-cost-flow oracle%s)" % (
                 o["cost"], orc, "" if cert else "; the proved certificate checker rejects it too")
         elif not amax:
-            why = "toAssignment does not give each source the (first) sink that receives most of it (proved checker argmaxb)"
+            why = "toAssignment does not give each source a sink that receives most of it (proved checker argmaxb)"
         if why:
             st["ofail"].append((l, r[:300], why))
             continue
+        if not incr_exact(caps, dems, o["caps"], incr):
+            # C13 only needs capacity >= demand afterwards; the exact shares are the model's (c13_increase_capacity_post)
+            st["mism"].append((l, r[:300], m[:300], "increaseCapacity does not add floor/ceil shares of the missing capacity: %s -> %s for total demand %d"
+                               % (caps, o["caps"], sum(dems)))); continue
         if not cert:
             # feasible, the oracle does not find it suboptimal, but no certificate was found: the untrusted
             # potential computation failed -> machinery problem, not a counterexample
@@ -224,7 +231,7 @@ def gen_cases(ctx, harness):
 
 
 def new_stats():
-    return {"n": 0, "kinds": {}, "outcomes": {}, "outside": 0, "mism": [], "ofail": [], "certified": 0, "same_matrix": 0,
+    return {"n": 0, "skipped": 0, "kinds": {}, "outcomes": {}, "outside": 0, "mism": [], "ofail": [], "certified": 0, "same_matrix": 0,
             "same_assign": 0, "nontriv": set(), "split": 0, "balanced": 0, "max_nsrc": 0, "nsnk_hist": {}}
 
 
@@ -273,6 +280,7 @@ def run(ctx):
         "impl_assignment_identical_to_model (statistic)": st["same_assign"],
         "model_vs_impl_differences": len(st["mism"]),
         "impl_outputs_violating_statement": len(st["ofail"]),
+        "cases_skipped_after_repeated_hangs": st["skipped"],
         "vm_compute_crosschecked_cases": nvm,
         "clauses": {"feasible + minimal cost": "checker proved sound for all inputs (c13_checked_solver_sound, via lp_cert_sound); raw algorithm: "
                                                "feasibility of any returned plan proved for all inputs (c13_ssp_feasible), optimality bounded "
